@@ -816,7 +816,10 @@ def check_subtree_root(ctx, fb):
             rv = eng.value_of(p.store, p.ret)
             cm = cond_map(p)
             vals.add((sh(rv, 120), tuple(sorted((sh(a, 60), v) for a, v in cm.items()))))
-    want = {("Option::None{}", (("b((p2 Eq 0))", True),)), ("Option::Some{0: (((p2 Add 1) Shr 1) Sub 1)}", (("b((p2 Eq 0))", False),))}
+    # the index is the function's usize parameter, wherever it stands (`parent(&self, i)` or an associated `parent(i)`)
+    ks = [k for k in range(1, it.arg_count + 1) if it.locals[k]["ty"] == "usize"]
+    k = ks[0] if len(ks) == 1 else 2
+    want = {("Option::None{}", (("b((p%d Eq 0))" % k, True),)), ("Option::Some{0: (((p%d Add 1) Shr 1) Sub 1)}" % k, (("b((p%d Eq 0))" % k, False),))}
     ctx.check(vals == want, "R06-5", "full::parent", "None for the root, ((i + 1) >> 1) - 1 otherwise", "parent is %s" % sorted(vals), loc(it))
 
 
